@@ -218,7 +218,7 @@ pub proof fn lemma_push_allowed(d0: Seq<Del>, d1: Seq<Del>, t: Target, x: Del)
                         target.out() == Some(output),
                         0 <= it0.index@ < output.files@.len() && output.files@[it0.index@ as int] == *resource,
                         /*[C12.frame]*/ resource.extensions is Some,
-                        it1.seq().unref().to_set() == listing(resource.paths@, resource.extensions),
+                        /*[C15.same-listing]*/ it1.seq().unref().to_set() == listing(resource.paths@, resource.extensions),
                         new_dels_allowed(old(w).deleted, w.deleted, *target),
 //@loopbody
                     broadcast use axiom_path_key_model;
